@@ -34,7 +34,7 @@ def place_demo(wt, src, f):
         return
     s = open(p).read()
     how = open(os.path.join(src, "demo_howto.txt")).read()
-    if re.search(r">>\s*%s|to the END of %s" % (re.escape(f), re.escape(f)), how):
+    if re.search(r">>\s*%s|to the END of %s" % (re.escape(f), re.escape(f)), how) or re.search(r"(?i)at the (very )?end of the file|append(ed)? (it )?to the end of the file", how):
         open(p, "w").write(s.rstrip("\n") + "\n\n" + demo + "\n")
         return
     i = s.rstrip().rfind("}")
